@@ -23,13 +23,17 @@ ClassOf(a) ==
     ELSE IF a.count[1] = 0 \/ a.count[2] = 0 THEN "zero"
     ELSE "valid"
 
+(* mvals: what the values passed become in the file (an unrepresentable one becomes the fill value); erange marks such a call *)
+ValsOf(a) == IF "mvals" \in DOMAIN a THEN a.mvals ELSE a.vals
 ArgOf(a) ==
-    LET c == ClassOf(a) IN
-    IF c # "valid" THEN [cls |-> c, rec |-> 0, nrec |-> 0, tok |-> <<>>]
-    ELSE [cls |-> "valid", rec |-> a.start[1], nrec |-> a.count[1],
-          tok |-> IF "vals" \in DOMAIN a
-                    THEN AsSeq([k \in 1..a.count[1] |-> <<a.vals[2 * k - 1], a.vals[2 * k]>>])
-                    ELSE AsSeq([k \in 1..a.count[1] |-> <<0, 0>>])]
+    LET c == ClassOf(a)
+        base == IF c # "valid" THEN [cls |-> c, rec |-> 0, nrec |-> 0, tok |-> <<>>]
+                ELSE [cls |-> "valid", rec |-> a.start[1], nrec |-> a.count[1],
+                      tok |-> IF "vals" \in DOMAIN a
+                                THEN AsSeq([k \in 1..a.count[1] |-> <<ValsOf(a)[2 * k - 1], ValsOf(a)[2 * k]>>])
+                                ELSE AsSeq([k \in 1..a.count[1] |-> <<0, 0>>])]
+    IN IF "erange" \in DOMAIN a /\ c = "valid" THEN [cls |-> base.cls, rec |-> base.rec, nrec |-> base.nrec, tok |-> base.tok, erange |-> TRUE]
+       ELSE base
 
 RK(ev) == ev.rk
 ByRank(ev, p) == CHOOSE i \in 1..Len(ev.rk) : ev.rk[i].r = p
